@@ -3,6 +3,8 @@ import Driver.Util
 /-! Line protocol for `Model/Gencommon` (stateful).  A case declares a small Go program
 (packages, the target file's imports, method-bearing types with embedded fields and methods) and
 then asks `find <pkg> <Type> <optbits>` (`findq`: same call, answer withheld), `promoted <pkg> <Type>` and `build`.
+`imp2 <pkg> <alias>` is an import of the target package's SECOND file and `in2 <Type>` puts a type of
+the target package (and its methods) there: the import handler is built from the first file alone.
 
 Types are written in prefix form, one token each:
 `b:<name>` basic/universe · `n:<pkg>:<Name>` named · `g:<pkg>:<Name>:<k>` + k types: instantiated
@@ -21,7 +23,8 @@ structure TyDecl where
 
 structure St where
   pkgs : List (Nat × Name × Name) := []       -- idx ↦ (path, package name)
-  imps : List (Nat × Option Name) := []       -- import specs of the target file
+  imps : List (Nat × Option Name) := []       -- import specs of the target file (the one handed to LoadPackages)
+  imps2 : List Nat := []                      -- packages imported by the target package's second file only
   tys : List TyDecl := []
   ih : Option IH := none
   legacy : Bool := false
@@ -108,8 +111,10 @@ def mapTy {ρ σ τ : Type} (f : σ → τ) : Nat → Ty ρ σ → Ty Unit τ
   | 0, _ => .mk () [] []
   | k + 1, .mk _ own emb => .mk () (own.map (fun m => (m.1, f m.2))) (emb.map (mapTy f k))
 
+/-- `calcImports` reads the import specs of the file handed to `LoadPackages` only; `PInfo.Imports`
+covers every file of the target package -/
 def initIH (st : St) : IH :=
-  let pin := st.imps.map (fun i => pkgOf st i.1)
+  let pin := st.imps.map (fun i => pkgOf st i.1) ++ st.imps2.map (fun i => pkgOf st i)
   calcImports (pkgOf st 0).1 pin (st.imps.map (fun i => ((pkgOf st i.1).1, i.2)))
 
 def sortStr (l : List String) : List String := l.mergeSort (fun a b => decide (a ≤ b))
@@ -132,6 +137,10 @@ def handle (st : St) (ws : List String) : St × String :=
   | ["imp", i, al] => match i.toNat? with
     | some i => ({ st with imps := st.imps ++ [(i, if al = "-" then none else some al.toList)] }, "ok")
     | none => (st, "bad-op")
+  | ["imp2", i, _al] => match i.toNat? with
+    | some i => ({ st with imps2 := st.imps2 ++ [i] }, "ok")
+    | none => (st, "bad-op")
+  | ["in2", _n] => (st, "ok")   -- which file of the target package declares a type: not looked at
   | ["ty", p, n, kind] => match p.toNat? with
     | some p => ({ st with tys := st.tys ++ [{ pkg := p, name := n, iface := kind = "iface" }] }, "ok")
     | none => (st, "bad-op")
